@@ -45,7 +45,13 @@ pub fn gen_keys(path: &std::path::Path) -> Result<(), String> {
 	let mut lines = Vec::new();
 	let mut add = |label: &str, der: Vec<u8>| -> Result<(), String> {
 		let kp = KeyPair::try_from(der.as_slice()).map_err(|e| format!("{}: {}", label, e))?;
-		lines.push(format!("{} {:?} {} {}", label, kp.algorithm(), hex(&der), hex(kp.public_key_raw())));
+		// RSA keys b and c are used under SHA-384 / SHA-512 (loaded with an explicit algorithm by every build)
+		let alg = match label {
+			"rsa2048-b" => "PKCS_RSA_SHA384".to_string(),
+			"rsa2048-c" => "PKCS_RSA_SHA512".to_string(),
+			_ => format!("{:?}", kp.algorithm()),
+		};
+		lines.push(format!("{} {} {} {}", label, alg, hex(&der), hex(kp.public_key_raw())));
 		Ok(())
 	};
 	add("ed25519-a", KeyPair::generate_for(&rcgen::PKCS_ED25519).map_err(|e| e.to_string())?.serialize_der())?;
@@ -54,6 +60,7 @@ pub fn gen_keys(path: &std::path::Path) -> Result<(), String> {
 	add("p384-a", ossl::ec_pkcs8(openssl::nid::Nid::SECP384R1))?;
 	add("rsa2048-a", ossl::rsa_pkcs8(2048))?;
 	add("rsa2048-b", ossl::rsa_pkcs8(2048))?;
+	add("rsa2048-c", ossl::rsa_pkcs8(2048))?;
 	std::fs::write(path, lines.join("\n") + "\n").map_err(|e| e.to_string())
 }
 
@@ -70,7 +77,13 @@ pub fn load_keys(path: &std::path::Path) -> Result<Vec<TKey>, String> {
 		let alg = alg_by_name(f[1]).ok_or_else(|| format!("unknown algorithm {}", f[1]))?;
 		#[cfg(feature = "crypto")]
 		let (kp, det) = {
-			let kp = KeyPair::try_from(pkcs8.as_slice()).map_err(|e| format!("{}: {}", f[0], e))?;
+			// auto-detection for most keys; the general explicit loader for the RSA keys used under SHA-384/512
+			let kp = if f[1] == "PKCS_RSA_SHA384" || f[1] == "PKCS_RSA_SHA512" {
+				let pkd = pki_types::PrivateKeyDer::try_from(pkcs8.clone()).map_err(|e| e.to_string())?;
+				KeyPair::from_der_and_sign_algo(&pkd, alg).map_err(|e| format!("{}: {}", f[0], e))?
+			} else {
+				KeyPair::try_from(pkcs8.as_slice()).map_err(|e| format!("{}: {}", f[0], e))?
+			};
 			if kp.algorithm() != alg || kp.public_key_raw() != pk_raw.as_slice() {
 				return Err(format!("key {} loads as another key/algorithm in this back end", f[0]));
 			}
